@@ -85,3 +85,50 @@ pub fn decode_history(data: &[u8]) -> HistorySpec {
     }
     HistorySpec { metric, indexes: vec![IndexSpec { index, dims, class, ids }], rounds }
 }
+
+/// Byte-level decoding of a step script (C06/C07/C18/C19 engine) for the `script` fuzz target.
+pub fn decode_script(data: &[u8]) -> crate::script::ScriptSpec {
+    use crate::script::{ScriptIndex, ScriptSpec, Step};
+    let mut b = Bytes::new(data);
+    let n_ix = 1 + (b.u8() as usize % 3);
+    let base = b.pick(&[0u16, 0, 254, 255, 65533, 1000]);
+    let mut indexes = Vec::new();
+    for i in 0..n_ix {
+        let metric = b.pick(&ALL_METRICS);
+        let dims = b.pick(&[1usize, 2, 3, 3, 20, 63, 64, 65, 130]);
+        let class = b.pick(&[ValueClass::Grid, ValueClass::Uniform]);
+        let pool = 3 + (b.u8() as usize % 30);
+        let mut ids: Vec<u32> = (0..pool as u32).collect();
+        if b.u8() % 3 == 0 {
+            ids.extend_from_slice(&[u32::MAX, u32::MAX - 1, 1 << 16]);
+        }
+        indexes.push(ScriptIndex { spec: IndexSpec { index: base + i as u16, dims, class, ids }, metric });
+    }
+    let mut steps = Vec::new();
+    while b.left() > 0 && steps.len() < 60 {
+        let k = b.u8();
+        let ix = (b.u8() as usize) % n_ix;
+        let slot = b.u16();
+        steps.push(match k % 32 {
+            0..=11 => Step::Add { ix, slot, vseed: b.u16() as u32 },
+            12..=14 => Step::Del { ix, slot },
+            15 => Step::DelAbsent { ix },
+            16 => Step::Append { ix, slot, vseed: b.u16() as u32 },
+            17 => Step::AppendHigh { ix, bump: b.u8() % 3, vseed: b.u16() as u32 },
+            18 => Step::AddBadLen { ix, slot, len: b.pick(&[0usize, 1, 2, 5, 64, 1000]) },
+            19 => Step::QueryBadLen { ix, len: b.pick(&[0usize, 1, 2, 5, 64, 1000]) },
+            20 => Step::Clear { ix },
+            21..=24 => Step::Build {
+                ix,
+                n_trees: b.pick(&[None, Some(1), Some(2), Some(3)]),
+                split_after: b.pick(&[None, Some(1), Some(2), Some(5)]),
+                rng_seed: b.u16() as u64,
+            },
+            25 => Step::BuildCancelled { ix, k: b.u8() as u64 % 40, rng_seed: b.u16() as u64 },
+            26..=28 => Step::ChangeMetric { ix, to: b.pick(&ALL_METRICS) },
+            29 | 30 => Step::Commit,
+            _ => Step::Abort,
+        });
+    }
+    ScriptSpec { indexes, steps }
+}
